@@ -140,14 +140,38 @@ DESCR3 = {
 }
 
 
+DESCR4 = {
+    "C01": ("router.py gn_data_indicate_gbc passes basic_header.set_rhl(new_rhl) to gn_data_forward_gbc, which decrements again", "a receiver three or more radio hops away with a tight hop limit (k <= h < 2(k-1))"),
+    "C02": ("router.py LS request / LS reply common header: flags = 0x80 if itsGnIsMobile else 0 (every Enum member is truthy)", "a STATIONARY station emitting an LS request or reply"),
+    "C03": ("certificate.py: memo of (issuer HashedId8, certificate signature value) that skips the ECDSA check on a hit", "a genuine certificate is verified first; a copy with the attacker's public key and the same signature value is then accepted"),
+    "C04": ("raw_link_layer.py receive: accept condition merged into 'dst == own or dst == broadcast and src != own'", "a unicast frame to the station whose Ethernet source is the station's own MAC"),
+    "C05": ("sign_service.py notify_unknown_at: forces the own certificate only if it went out more than 1 s ago", "two mutually unknown stations inside their 1 s inclusion periods: the request CAM is digest-signed and cannot be verified by the peer it is meant for"),
+    "C06": ("router.py _cbf_timeout: buffer guard replaced by an unconditional pop", "a duplicate handled exactly while the CBF timer callback has started (interleaving only)"),
+    "C07": ("router.py _compute_area_size_m2: circle and ellipse merged into pi * a * (b or a)", "circular area whose b field is neither 0 nor a: size check against itsGnMaxGeoAreaSize wrong"),
+    "C08": ("location_table.py update_with_shb_packet returns early when the PV was not replaced (skips is_neighbour = True)", "S known through a multi-hop packet, then its first SHB / beacon with an equal or older timestamp"),
+    "C09": ("certificate.py drops check_corresponding_issuer from verification; certificate_library.py checks the stated digest only", "certificate whose stated issuer digest names a trusted CA while the attached issuer object is the untrusted CA that signed it"),
+    "C10": ("cam_transmission_management.py: start() no longer resets _last_cam_time_ms and T_GenCam loses its upper clamp (two cooperating sites)", "stop, more than 1.1 s, start, low dynamics: one CAM then silence for as long as the station was stopped"),
+    "C11": ("vru_clustering.py _standalone_operation_container: joinTime loses its max(1, ...) clamp", "a VAM generated in the last quarter second of the 3 s join notification: joinTime 0, encoding fails"),
+    "C12": ("dictionary_database.py: remove() by equality only and remove_by_id() via get + remove (two cooperating sites)", "two live objects with field-for-field equal records, delete of the later one removes the earlier"),
+    "C13": ("ldm_constants.py _value_contains: str and container branches merged (no str() of the reference)", "like / notlike with a non-string reference on a string-valued attribute"),
+    "C14": ("ldm_service.py order_search_results: None-safe sort key replaced by the bare value", "ordered subscription with >= 2 matching objects one of which lacks the order attribute: TypeError out of the attendance"),
+    "C15": ("location_table.py get_neighbours iterates loc_t without the lock", "an originator scanning the neighbours while another thread inserts a new station: RuntimeError kills the originating thread"),
+    "C16": ("ldm_service.py del_data_provider_its_aid: membership test before the lock", "two racing deregistrations of one provider both acknowledged"),
+    "C17": ("denm_transmission_management.py: destination area built once per event (together with the shared position dictionary of the emergency vehicle service)", "overlapping events of one EmergencyVehicleApproachingService instance with different positions"),
+    "C18": ("vru_clustering.py _process_received_vam: 'elif bbox and \"circular\" in bbox' -> 'elif \"circular\" in bbox'", "a cluster VAM without the OPTIONAL bounding box raises TypeError, is swallowed, and the whole VAM is ignored"),
+    "C19": ("dcc_reactive.py update: steps by the current band only, '<=' on the inclusive lower bound", "CBR bit-exactly on a band's lower threshold while already in that band: the state flaps"),
+    "C20": ("router.py process_common_header: the BEACON branch returns before the RHL > MHL check", "a beacon with RHL above its MHL makes its sender a neighbour"),
+}
+
+
 def main():
     res = {}
     for f in sorted(glob.glob(os.path.join(HERE, ".work", "seeded*_eval_*.log"))):
         for line in open(f):
-            m = re.match(r"RESULT (C\d\d[23]?) demo_without=(\d+) demo_with=(\d+) suite=\[(.*?)\] check_exit=(\d+) ?(.*)", line)
+            m = re.match(r"RESULT (C\d\d[234]?) demo_without=(\d+) demo_with=(\d+) suite=\[(.*?)\] check_exit=(\d+) ?(.*)", line)
             if m:
                 res[m.group(1)] = m.groups()
-    items = [(pid, "", v) for pid, v in sorted(DESCR.items())] + [(pid, "2", v) for pid, v in sorted(DESCR2.items())] + [(pid, "3", v) for pid, v in sorted(DESCR3.items())]
+    items = [(pid, "", v) for pid, v in sorted(DESCR.items())] + [(pid, "2", v) for pid, v in sorted(DESCR2.items())] + [(pid, "3", v) for pid, v in sorted(DESCR3.items())] + [(pid, "4", v) for pid, v in sorted(DESCR4.items())]
     for pid, suf, (change, needs) in items:
         d = os.path.join(HERE, "seeded", pid)
         if not os.path.isdir(d):
